@@ -33,9 +33,9 @@ TECHNIQUE = "property-based testing (Hypothesis): metamorphic two-run relation, 
 LEVEL_TEXT = ("Exploration: thousands of generated system/transformation pairs per run; every punched result (pH, pe, mu, totals, "
               "molalities, activities, SI, reactant amounts, gas pressures, surface charge/potential) must agree to 1e-8 relative "
               "(1e-8 absolute for log quantities, bitwise for respelled units, extensive results scaled by the water factor).")
-FLOORS = {"quick": 400, "thorough": 4000}
-SHARDS = {"quick": 4, "thorough": 4}
-BUDGET = {"quick": 2400, "thorough": 36000, "replay": 1}
+FLOORS = {"quick": 800, "thorough": 8000}
+SHARDS = {"quick": 8, "thorough": 16}
+BUDGET = {"quick": 4000, "thorough": 60000, "replay": 1}
 
 REL = 1e-8
 
